@@ -33,6 +33,7 @@ func newPublisher(log logutil.Log, parent Subscription) Controller {
 		log:           log.WithComponent("publisher"),
 	}
 
+	verifTrace(s, "pub.new", parent)
 	go s.run()
 
 	return s
@@ -117,6 +118,7 @@ loop:
 		case evt, ok := <-s.parent.Events():
 			if !ok {
 				s.log.Debugf("parent events closed")
+				verifTrace(s, "pub.stopping")
 				s.lc.ShutdownInitiated(nil)
 				break loop
 			}
@@ -124,6 +126,7 @@ loop:
 		case resultch := <-s.subscribech:
 			resultch <- s.createSubscription()
 		case sub := <-s.unsubscribech:
+			verifTrace(s, "pub.unsubscribe", sub)
 			delete(s.subscriptions, sub)
 		}
 	}
@@ -132,14 +135,17 @@ loop:
 		s.log.Debugf("draining: %v subscriptions", len(s.subscriptions))
 		select {
 		case sub := <-s.unsubscribech:
+			verifTrace(s, "pub.unsubscribe", sub)
 			delete(s.subscriptions, sub)
 		}
 	}
 
 	<-s.parent.Done()
+	verifTrace(s, "pub.done")
 }
 
 func (s *publisher) distributeEvent(evt Event) {
+	verifTrace(s, "pub.event", evt)
 	s.log.Debugf("distribute event: sending %v to %v subscriptions", evt, len(s.subscriptions))
 
 	for sub := range s.subscriptions {
@@ -153,6 +159,7 @@ func (s *publisher) createSubscription() Subscription {
 	sub := newSubscription(s.log, s.lc.ShuttingDown(), s.parent.Ready(), s.parent.Cache())
 
 	s.subscriptions[sub] = struct{}{}
+	verifTrace(s, "pub.subscribe", sub)
 
 	go func() {
 		select {
